@@ -50,7 +50,7 @@ pub fn write_binary(
     let res = no_panic("rbx_binary serializer", || {
         // the same settings through every call chain the builder API allows (all mean the same)
         let db = rbx_reflection_database::get();
-        let ser = match (roots.len() + dom.root().children().len()) % 3 {
+        let ser = match (roots.len() + dom.get_by_ref(dom.root_ref()).map(|r| r.children().len()).unwrap_or(0)) % 3 {
             0 => rbx_binary::Serializer::new().compression_type(comp),
             1 => rbx_binary::Serializer::new().compression_type(comp).reflection_database(db),
             _ => rbx_binary::Serializer::new().reflection_database(db).compression_type(comp),
